@@ -241,3 +241,11 @@ package jd
 //@   requires validNode(n) && !isVoid(n)
 //@   ensures_bounded ret0
 //@   carries C15
+
+//@ contract verifEquals
+//@   bounded
+//@   requires validNode(a) && validNode(b)
+//@   ensures_bounded ret0 == specEq(a, b, verifEqualOptions(options))
+//@   ensures_bounded ret0 == b.Equals(a, options...)
+//@   ensures_bounded a.Equals(a, options...)
+//@   carries C04
